@@ -51,12 +51,16 @@ pub mod native {
 #[cfg(not(kani))]
 pub use native::{any, assume};
 
-/// `check!("id", cond)`: a property obligation. Solver build: an assertion whose description is the id.
-/// Native build: failure is recorded under the id (the harness continues, like CBMC does).
+/// `check!("id", cond)`: a property obligation. Solver build: `kani::cover!(!cond, "id")` — a cover property is
+/// SATISFIED exactly when some input violates `cond`, and, unlike Kani's `assert!` (assert-then-assume, i.e. panic
+/// semantics), it does not cut the paths that continue after a violated obligation, so later obligations and the
+/// reachability witness are still evaluated (needed for the known-finding probes). The driver reads a satisfied
+/// cover whose id does not end in ".end" as a violated obligation and asks CBMC for its trace.
+/// Native build: failure is recorded under the id and the harness continues likewise.
 #[cfg(kani)]
 #[macro_export]
 macro_rules! check {
-    ($id:expr, $cond:expr) => { assert!($cond, $id) };
+    ($id:literal, $cond:expr) => { kani::cover!(!($cond), $id) };
 }
 #[cfg(not(kani))]
 #[macro_export]
@@ -66,11 +70,11 @@ macro_rules! check {
         else { $crate::kx::native::FAILED.with(|c| c.borrow_mut().push($id.to_string())); }
     };
 }
-/// `reach!("id")`: reachability witness (vacuity guard). Solver: `kani::cover!`. Native: recorded as passed.
+/// `reach!("id.end")`: reachability witness (vacuity guard); ids end in ".end". Solver: `kani::cover!(true, ..)`.
 #[cfg(kani)]
 #[macro_export]
 macro_rules! reach {
-    ($id:expr) => { kani::cover!(true, $id) };
+    ($id:literal) => { kani::cover!(true, $id) };
 }
 #[cfg(not(kani))]
 #[macro_export]
